@@ -87,8 +87,9 @@ def run(ck, m):
         ck.ob("R3", a, norm(a.value.args[0].body) == want, f"{prop} must evaluate `_valid_size` on every access for a dynamic size (and return a fixed size unchanged); found `{short(a.value.args[0].body, 90)}`",
               stmt=f"BaseImage.{prop}: re-evaluates a dynamic size")
     n_store = 0
-    for rel, f in m.files.items():
-        for n in ast.walk(f.tree):
+    for rel in m.files:
+
+        for n in m.walk(rel):
             if isinstance(n, (ast.Assign, ast.AnnAssign, ast.AugAssign)) and getattr(n, "value", None) is not None and any(isinstance(c, ast.Call) and (call_name(c) or "").endswith("_valid_size") for c in ast.walk(n.value)):
                 tg = n.targets[0] if isinstance(n, ast.Assign) else n.target
                 if isinstance(tg, (ast.Attribute, ast.Subscript)):
@@ -97,8 +98,9 @@ def run(ck, m):
                     ck.ob("R3", n, ok, f"`{short(n, 70)}` keeps a computed size: a dynamic size would stop following the terminal size and cell ratio", stmt=f"{rel}::{getattr(n, '_q', '')}: {short(n, 70)}")
     ck.expect(n_store >= 1, "no store of a _valid_size result found (set_size expected)")
     writers = set()
-    for rel, f in m.files.items():
-        for t, st in stores_in(f.tree, local=False):
+    for rel, _q, t, st in m.stores():
+
+        if True:
             if isinstance(t, ast.Attribute) and t.attr == "_size":
                 writers.add(f"{rel}::{getattr(st, '_q', '')}")
     allowed = {f"{CM}::BaseImage.size#2", f"{CM}::BaseImage.size", f"{CM}::BaseImage.set_size", f"{UW}::UrwidImage.render"}
